@@ -41,6 +41,14 @@ pub fn symbols_for(rng: &mut StdRng, cpu: &str, os: &str) -> String {
     if cpu == "x86" && os == "windows" {
         s.push_str("STACK WIN 4 300 100 0 0 c 0 4 0 1 $T0 .raSearch = $eip $T0 ^ = $esp $T0 4 + =\nSTACK WIN 0 100 40 0 0 c 8 0 0 0 1\n");
     }
+    // records whose range starts exactly on the last byte of the one before (ranges are inclusive: that is an overlap),
+    // exact duplicates, and adjacent ones
+    match rng.gen_range(0..4) {
+        0 => s.push_str(&format!("FUNC 1ff 20 0 tail_overlap\nFUNC 3ff 1 0 one_byte\nSTACK CFI INIT 1ff 20 .cfa: {} {} + .ra: .cfa {} - ^\nPUBLIC 800 0 dup_public\n", spn, w, w)),
+        1 => s.push_str(&format!("FUNC 100 100 10 duplicate\nFUNC 200 10 0 adjacent\nSTACK CFI INIT 100 100 .cfa: {} {} + .ra: .cfa {} - ^\n", spn, w, w)),
+        2 if cpu == "x86" => s.push_str("STACK WIN 4 3ff 10 0 0 c 0 4 0 1 $T0 .raSearch = $eip $T0 ^ = $esp $T0 4 + =\nSTACK WIN 0 13f 10 0 0 c 8 0 0 0 1\n"),
+        _ => {}
+    }
     s
 }
 
@@ -94,6 +102,33 @@ fn one(rng: &mut StdRng, k: usize) -> Item {
             spec.exception = None;
         }
     }
+    // two different libraries that share a leaf name and carry no identifiers; each has its own symbols.  Thread 0 starts in m1
+    // (whose look-up may be delayed) and returns into the first; thread 1 runs in the second.
+    let leaf_twins = !twins && rng.gen_bool(0.25);
+    if leaf_twins {
+        spec.modules.push(ModuleSpec { base: 0x430000, size: 0x1000, name: "/system/lib64/libcodec.so".into() });
+        spec.modules.push(ModuleSpec { base: 0x440000, size: 0x1000, name: "/vendor/lib64/libcodec.so".into() });
+        if spec.threads.len() >= 2 {
+            spec.threads[0].ip = 0x400350; spec.threads[0].ctx_ok = true; spec.threads[0].sp = spec.threads[0].stack_base;
+            let ra = if w == 8 { 0x430150u64.to_le_bytes().to_vec() } else { 0x430150u32.to_le_bytes().to_vec() };
+            if spec.threads[0].stack.len() >= ra.len() { spec.threads[0].stack[..ra.len()].copy_from_slice(&ra); }
+            spec.threads[1].ip = 0x440150; spec.threads[1].ctx_ok = true;
+            spec.exception = None;
+        }
+    }
+    // the bytes of the crashing instruction are in the dump (amd64): reads, writes, read-modify-writes, jumps through memory, garbage
+    if cpu == "amd64" && rng.gen_bool(0.5) {
+        let ops: [&[u8]; 9] = [&[0xff, 0x04, 0x24], &[0x88, 0x04, 0x24], &[0x8a, 0x04, 0x24], &[0x48, 0x8b, 0x00], &[0xff, 0x20], &[0xc3], &[0x0f, 0x0b], &[0x83, 0x04, 0x24, 0x01], &[0xff, 0xff, 0xff]];
+        let op = ops[rng.gen_range(0..ops.len())];
+        let mut bytes = op.to_vec();
+        bytes.resize(16, 0x90);
+        let at = 0x400150u64;
+        spec.extra_memory.push((at, bytes));
+        if let Some(e) = spec.exception.as_mut() {
+            e.has_ctx = true; e.ctx_ok = true; e.ctx_ip = at; e.ctx_sp = 0x10008;
+            if rng.gen_bool(0.5) { e.address = 0x10008; e.info[1] = 0x10008; }
+        }
+    }
     if w == 4 && rng.gen_bool(0.3) { spec.modules.push(ModuleSpec { base: 0xfff0_0000, size: 0x20_0000, name: "high.dll".into() }); }
     if rng.gen_bool(0.3) { spec.modules.push(ModuleSpec { base: 0x400800, size: 0x1000, name: "overlap".into() }); }
     if rng.gen_bool(0.5) { spec.unloaded = vec![ModuleSpec { base: 0x600000, size: 0x1000, name: "u1".into() }, ModuleSpec { base: 0x600080, size: 0x1000, name: HOSTILE[rng.gen_range(0..HOSTILE.len())].into() }]; }
@@ -110,6 +145,10 @@ fn one(rng: &mut StdRng, k: usize) -> Item {
     let mut symbols = HashMap::new();
     if rng.gen_bool(0.8) { symbols.insert(mname, symbols_for(rng, ctx_cpu, os)); }
     if twins { let t = symbols_for(rng, ctx_cpu, os); symbols.insert("plugin.dll".into(), t.clone()); if rng.gen_bool(0.5) { symbols.insert("plugin_copy.dll".into(), t); } }
+    if leaf_twins {
+        symbols.insert("/system/lib64/libcodec.so".into(), format!("MODULE Linux {} 000 libcodec.so\nFUNC 100 100 0 system_codec_decode\n", ctx_cpu));
+        symbols.insert("/vendor/lib64/libcodec.so".into(), format!("MODULE Linux {} 000 libcodec.so\nFUNC 100 100 0 vendor_codec_decode\n", ctx_cpu));
+    }
     let mut dump = build(&spec);
     let mut corrupted = false;
     if k % 4 == 3 {
